@@ -10,6 +10,7 @@ func checkC06(c *Ctx, r *Report) {
 	}
 	reach := c.reachFromEntries(c06Entries)
 	ruleExplicitPanic(c, r, "explicit-panic", reach)
+	ruleDisasmGated(c, r, "listing-gated")
 	ruleDroppedConversion(c, r, "dropped-conversion-error", reach)
 	rulePartialCalls(c, r, "partial-call", reach)
 	ruleIfaceEq(c, r, "iface-eq", reach)
